@@ -152,7 +152,7 @@ BF_CHOICES = ["1.0", "0.5", "0.25", "0.125", "1", "0.3", "0.0271", "0.0542", "1e
               "0.91234567891", "0.333333333333", "0.74999999964", "3.6e-10", "1.2E-12", "0.000000000437"]
 
 
-def gen_tables(rng: random.Random, n_dec=None, max_lines=4, max_ds=4, aliases=True, empty_blocks=True, depth_bias=0.5):
+def gen_tables(rng: random.Random, n_dec=None, max_lines=4, max_ds=4, aliases=True, empty_blocks=True, depth_bias=0.5, copies=True):
     """an acyclic set of decay tables as wire statements.  Returns (doc, info) with info = dict(dec=[names of
     particles with a Decay block], stable=[...], aliases={alias: name})"""
     n_dec = n_dec or rng.choice([1, 2, 3, 3, 4, 5, 6])
@@ -186,8 +186,30 @@ def gen_tables(rng: random.Random, n_dec=None, max_lines=4, max_ds=4, aliases=Tr
         blocks.append(["decay", d, lines])
     for a, t in alias.items():
         doc.append(["alias", a, t])
+    extra = []
+    if copies and n_dec >= 2 and rng.random() < 0.4:
+        # tables that exist only through CopyDecay: NEW is a fresh name used as a daughter of an earlier particle, or a
+        # particle that also has its own Decay block (then there are two tables of that name and the first one in
+        # the list is the one every query and every chain uses).  OLD comes later in the order, so no cycle arises.
+        for _ in range(rng.choice([1, 1, 2])):
+            j = rng.randint(1, n_dec - 1)
+            i = rng.randint(0, j - 1)
+            if rng.random() < 0.5:
+                new = f"Cpy{len(extra)}{names[0][:3]}"
+                if not blocks[i][2]:
+                    continue
+                rng.choice(blocks[i][2])[1].append(new)
+                dec = dec + [new]
+            else:
+                new = dec[i]
+                if i > 0:
+                    b = blocks[rng.randint(0, i - 1)]
+                    if b[2]:
+                        rng.choice(b[2])[1].append(new)
+            extra.append(["copydecay", new, dec[j]])
     rng.shuffle(blocks) if rng.random() < 0.5 else None
     doc += blocks
+    doc += extra
     if rng.random() < 0.3:
         rng.shuffle(doc)
     return doc, {"dec": dec, "stable": stable, "aliases": alias}
@@ -195,7 +217,9 @@ def gen_tables(rng: random.Random, n_dec=None, max_lines=4, max_ds=4, aliases=Tr
 
 # ----------------------------------------------------------------------------- full .dec documents
 NUM_FORMS = ["1", "1.", ".5", "-0.8", "+3", "20.e12", "2E-4", "0.5", "1.0", "0", "-1", "3.14159", "1e-5", "0.507e12", "12", "-.25", "+1.5E+2"]
-WORD_PARAMS = ["DtoKpipipi_v1", "x1", "dm", "beta", "Vub", "my_par", "fD", "a/b", "q(1)", "w'", "z~", "A*B"]
+WORD_PARAMS = ["DtoKpipipi_v1", "x1", "dm", "beta", "Vub", "my_par", "fD", "a/b", "q(1)", "w'", "z~", "A*B",
+               # words float() would accept although the grammar reads them as labels: they stay verbatim
+               "inf", "nan", "Infinity", "NaN", "INF", "infinity", "e1"]
 
 
 def rand_params(rng: random.Random, defined=(), max_n=6):
@@ -280,6 +304,9 @@ def gen_doc(rng: random.Random, n_blocks=None, globals_p=0.5, cc=True, copies=Tr
             if x not in used and safe_label(x):
                 used.add(x)
                 stmts.append(["cdecay", x])
+                if repeats and rng.random() < 0.2:
+                    # the same CDecay statement given again (e.g. by a user file read after the main file)
+                    stmts.append(["cdecay", x])
     if copies:
         for _ in range(rng.randint(0, 2)):
             new = rng.choice(pool + ["Copy1", "MyCopy"])
@@ -434,3 +461,76 @@ class Layout:
         if end_line if end_line is not None else r.random() < 0.3:
             s += self.ind() + "End" + self.eol()
         return s
+
+
+# ----------------------------------------------------------------------------- sibling documents
+def sibling_doc(rng: random.Random, doc, n_edits=None, structure=True):
+    """a document differing from `doc` in a few values only (most of its text is byte-identical): a Define value, a branching
+    fraction, a daughter, a model parameter, the partner of an Alias / ChargeConj / CopyDecay, a dropped or doubled decay
+    line, two statements exchanged.  Read right after `doc` in the same process (and `doc` again after it), every answer must
+    come from the text just read: anything remembered across parses under a key that ignores the edited value shows up as a
+    disagreement with the model.  structure=False keeps who decays into whom (for acyclic table sets)."""
+    import copy
+
+    d = copy.deepcopy(doc)
+    names = [st[1] for st in d if st[0] == "decay"] or ["pi0"]
+    n_edits = n_edits or rng.choice([1, 1, 2, 3])
+    done = 0
+    for _ in range(n_edits * 6):
+        if done >= n_edits or not d:
+            break
+        st = rng.choice(d)
+        k = st[0]
+        if k == "define":
+            st[2] = rng.choice([x for x in NUM_FORMS if x != st[2]])
+        elif k == "decay" and st[2]:
+            ln = rng.choice(st[2])
+            r = rng.random()
+            if r < 0.3:
+                ln[0] = rng.choice([x for x in BF_CHOICES if x != ln[0]])
+            elif r < 0.55 and ln[1] and structure:
+                j = rng.randrange(len(ln[1]))
+                alt = [x for x in names + ln[1] + ["gamma", "pi0", "K+"] if x != ln[1][j] and safe_label(x)]
+                if not alt or (j == 0 and alt[0][0] in "0123456789.+-"):
+                    continue
+                ln[1][j] = rng.choice([a for a in alt if not (j == 0 and a[0] in "0123456789.+-")] or [ln[1][j]])
+            elif r < 0.7 and len(ln[1]) >= 2:
+                i, j = rng.sample(range(len(ln[1])), 2)
+                if ln[1][i] == ln[1][j] or ln[1][j][0] in "0123456789.+-" or ln[1][i][0] in "0123456789.+-":
+                    continue
+                ln[1][i], ln[1][j] = ln[1][j], ln[1][i]
+            elif r < 0.8:
+                ln[2] = not ln[2]
+            elif r < 0.9 and ln[3][0] == "named" and ln[3][2]:
+                pars = ln[3][2]
+                j = rng.randrange(len(pars))
+                if pars[j][0] == "num":
+                    pars[j] = ["num", rng.choice([x for x in NUM_FORMS if x != pars[j][1]])]
+                else:
+                    continue
+            else:
+                if len(st[2]) >= 2 and rng.random() < 0.5:
+                    st[2].pop(rng.randrange(len(st[2])))
+                else:
+                    st[2].insert(rng.randrange(len(st[2]) + 1), copy.deepcopy(ln))
+        elif k in ("alias", "chargeconj", "copydecay") and len(names) >= 1 and structure:
+            alt = [x for x in names if x != st[2] and x != st[1]]
+            if not alt:
+                continue
+            st[2] = rng.choice(alt)
+        elif k == "model_alias" and st[2][0] == "named" and st[2][2]:
+            pars = st[2][2]
+            j = rng.randrange(len(pars))
+            if pars[j][0] != "num":
+                continue
+            pars[j] = ["num", rng.choice([x for x in NUM_FORMS if x != pars[j][1]])]
+        elif k == "global_photos":
+            st[1] = not st[1]
+        else:
+            same = [i for i, s2 in enumerate(d) if s2[0] == k and s2 is not st]
+            if not same:
+                continue
+            i, j = d.index(st), rng.choice(same)
+            d[i], d[j] = d[j], d[i]
+        done += 1
+    return d
